@@ -29,9 +29,9 @@ def r1(ctx):
     rep.functions |= sub.functions
     for op, variant in ((0x04, "Delete"), (0x14, "DeleteQuiet")):
         somes, _t = decoded_variant(ctx, op)
-        rep.check(somes == [variant], "decode:%#04x" % op, "%#04x decodes to %s" % (op, variant), "opcode %#04x decodes to %s, the protocol says %s" % (op, somes, variant), f.one(CODEC + "::parse_request").loc())
+        rep.check(somes == [variant], "decode:%#04x" % op, "%#04x decodes to %s" % (op, variant), "opcode %#04x decodes to %s, the protocol says %s" % (op, somes, variant), safe_loc(f, CODEC + "::parse_request"))
         hm = handler_method_of(ctx, variant)
-        rep.check(hm == {"delete"}, "handle:%s" % variant, "%s handled by BinaryHandler::delete" % variant, "%s is handled by %s" % (variant, sorted(hm or [])), f.one(HANDLER + "::handle_request").loc())
+        rep.check(hm == {"delete"}, "handle:%s" % variant, "%s handled by BinaryHandler::delete" % variant, "%s is handled by %s" % (variant, sorted(hm or [])), safe_loc(f, HANDLER + "::handle_request"))
     hb = f.one(HANDLER + "::delete")
     I = Interp(f, policy=memc_opaque)
     ok = False
@@ -81,6 +81,12 @@ def r2(ctx):
                 newv = e.extra["value"]
                 new_ttl = field_of(newv, "header", "time_to_live")
                 old_ttl = F(old, "header", "time_to_live")
+                # the u32 saturation arm (age + delay above 2^32-1 s = 136 years: an explicit clamp written as a branch,
+                # e.g. u32::try_from(..).unwrap_or(u32::MAX)) is outside the property's range of delays and clock values
+                clamped = any(isinstance(c, tuple) and c and c[0] == "cmp" and hdr_ttl in atoms(c) and 0xFFFFFFFF in (c[2], c[3]) and ((c[1] in ("Gt", "Ge") and tr) or (c[1] in ("Le", "Lt") and not tr)) for c, tr, _s, _at in p.state.pc)
+                if clamped:
+                    rep.ok("flush[ttl!=0]:saturation-arm", "age + delay beyond u32::MAX seconds is clamped", loc_s(e.span))
+                    continue
                 if new_ttl == old_ttl:
                     # branch that keeps the item's own (earlier) expiry: must be guarded by a comparison involving the delay
                     guarded = any(hdr_ttl in atoms(c) and old_ttl in atoms(c) for c, _t, _s, _at in p.state.pc)
@@ -121,9 +127,9 @@ def r3(ctx):
     f = ctx.facts
     for op, variant in ((0x08, "Flush"), (0x18, "FlushQuietly")):
         somes, _t = decoded_variant(ctx, op)
-        rep.check(somes == [variant], "decode:%#04x" % op, "%#04x decodes to %s" % (op, variant), "opcode %#04x decodes to %s, the protocol says %s" % (op, somes, variant), f.one(CODEC + "::parse_request").loc())
+        rep.check(somes == [variant], "decode:%#04x" % op, "%#04x decodes to %s" % (op, variant), "opcode %#04x decodes to %s, the protocol says %s" % (op, somes, variant), safe_loc(f, CODEC + "::parse_request"))
         hm = handler_method_of(ctx, variant)
-        rep.check(hm == {"flush"}, "handle:%s" % variant, "%s handled by BinaryHandler::flush" % variant, "%s is handled by %s" % (variant, sorted(hm or [])), f.one(HANDLER + "::handle_request").loc())
+        rep.check(hm == {"flush"}, "handle:%s" % variant, "%s handled by BinaryHandler::flush" % variant, "%s is handled by %s" % (variant, sorted(hm or [])), safe_loc(f, HANDLER + "::handle_request"))
     pb = f.one(CODEC + "::parse_flush_request")
     from bufmodel import BUF_MODELS
 
